@@ -62,7 +62,40 @@ func showln(n *N) int { fmt.Println(n, n.kids, n.idx); return 0 }
 	}
 }
 
+// verifC14AnyCycles: cycles that run through containers of `any` only (no struct in the loop), built by scripts; every
+// way of rendering them must return.
+func verifC14AnyCycles() {
+	vm := New(WithStdout(&verifRecorder{}))
+	src := `func sliceSelf() []any { s := []any{1, "a"}; s[0] = s; return s }
+func sliceTwo() []any { a := []any{1}; b := []any{a, 2}; a[0] = b; return a }
+func sliceAppend() []any { s := []any{true}; s = append(s, 1.5); s[1] = s; return s }
+func mapSelf() map[string]any { m := map[string]any{"k": 1}; m["k"] = m; return m }
+func mapSlice() []any { m := map[string]any{"k": 1}; s := []any{m}; m["k"] = s; return s }
+func sliceThree() []any { a := []any{0}; b := []any{a}; c := []any{b}; a[0] = c; return b }
+func show(v any) string { return fmt.Sprint(v) }
+func showln(v any) int { fmt.Println(v); println(v); return 0 }
+`
+	if _, err := vm.Eval(verifMkFS(nil), "main.go", "import \"fmt\"\n"+src); err != nil {
+		verifAssert(false, "C14/any-cycles/eval")
+		return
+	}
+	mks := []string{"main.sliceSelf", "main.sliceTwo", "main.sliceAppend", "main.mapSelf", "main.mapSlice", "main.sliceThree"}
+	mk := mks[verifChoice("graph", len(mks))]
+	rets, err := vm.Call(mk, 1)
+	verifAssert(err == nil && len(rets) == 1, "C14/any-cycles/build")
+	if err != nil || len(rets) != 1 {
+		return
+	}
+	s := rets[0].String() // host-side rendering must return
+	verifAssert(len(s) > 0, "C14/any-cycles/host-String-terminates")
+	out, err := vm.Call("main.show", 1, rets[0])
+	verifAssert(err == nil && len(out) == 1 && len(out[0].String()) > 0, "C14/any-cycles/script-Sprint-terminates")
+	_, err = vm.Call("main.showln", 1, rets[0])
+	verifAssert(err == nil, "C14/any-cycles/script-Println-terminates")
+}
+
 func init() {
+	verifHarnesses["verifC14AnyCycles"] = verifC14AnyCycles
 	verifHarnesses["verifC14Structs"] = verifC14Structs
 	verifHarnesses["verifC14Cycles"] = verifC14Cycles
 }
